@@ -578,8 +578,9 @@ func genTxMon(c *ctx) *gen {
 		}
 
 		// --- single-field mutation => different bytes and different hash
-		for field, inner := range txMutants(r, tx, loc) {
-			m := types.NewTx(inner)
+		muts := txMutants(r, tx, loc)
+		for _, field := range hlib.SortedKeys(muts) {
+			m := types.NewTx(muts[field])
 			mb, _ := marshalTx(m)
 			if bytes.Equal(mb, b) {
 				c.fail(sig+"mutation/same-bytes/"+field, fmt.Sprintf("changing %s leaves the encoding unchanged: %s", field, view))
